@@ -16,6 +16,7 @@ import (
 	"go/types"
 	"sort"
 	"strings"
+	"sync"
 
 	"golang.org/x/tools/go/cfg"
 )
@@ -87,20 +88,37 @@ type BoundOb struct {
 	Extra  []*BFact // short-circuit facts local to the expression
 }
 
-var boundsCache = map[*Func]*Bounds{}
-var summaryCache = map[*Func]*Summary{}
+// caches are shared by the build configurations analysed concurrently
+var (
+	cacheMu      sync.Mutex
+	boundsCache  = map[*Func]*Bounds{}
+	summaryCache = map[*Func]*Summary{}
+)
+
+func summaryGet(cf *Func) (*Summary, bool) {
+	cacheMu.Lock()
+	defer cacheMu.Unlock()
+	s, ok := summaryCache[cf]
+	return s, ok
+}
+
+func summaryPut(cf *Func, s *Summary) {
+	cacheMu.Lock()
+	defer cacheMu.Unlock()
+	summaryCache[cf] = s
+}
 
 // AnalyseBounds runs the must-analysis and evaluates all obligations of f.
 // Calls of module functions contribute their nil-return summaries.
 func AnalyseBounds(p *Prog, f *Func) *Bounds {
 	var sums func(cf *Func) *Summary
 	sums = func(cf *Func) *Summary {
-		if s, ok := summaryCache[cf]; ok {
+		if s, ok := summaryGet(cf); ok {
 			return s
 		}
-		summaryCache[cf] = nil // recursion guard
+		summaryPut(cf, nil) // recursion guard
 		s := NilReturnSummary(p, cf, sums)
-		summaryCache[cf] = s
+		summaryPut(cf, s)
 		return s
 	}
 	return AnalyseBoundsWith(p, f, sums)
@@ -901,8 +919,45 @@ func (b *Bounds) killFieldsUnder(fs FactSet, o types.Object) {
 	b.killIf(fs, func(t *BTerm) bool { return t.K == TField && b.rootOf(t).Obj == o })
 }
 
-func (b *Bounds) killElems(fs FactSet) {
-	b.killIf(fs, func(t *BTerm) bool { return t.K == TElem })
+// killElems forgets element values of slices whose element type is et (nil:
+// of every slice).
+func (b *Bounds) killElems(fs FactSet, et types.Type) {
+	b.killIf(fs, func(t *BTerm) bool {
+		if t.K != TElem {
+			return false
+		}
+		if et == nil || t.Args[0].Obj == nil {
+			return true
+		}
+		switch u := t.Args[0].Obj.Type().Underlying().(type) {
+		case *types.Slice:
+			return types.Identical(u.Elem(), et)
+		case *types.Array:
+			return types.Identical(u.Elem(), et)
+		case *types.Pointer:
+			if a, ok := u.Elem().Underlying().(*types.Array); ok {
+				return types.Identical(a.Elem(), et)
+			}
+		}
+		return true
+	})
+}
+
+func elemTypeOf(t types.Type) types.Type {
+	if t == nil {
+		return nil
+	}
+	switch u := t.Underlying().(type) {
+	case *types.Slice:
+		return u.Elem()
+	case *types.Array:
+		return u.Elem()
+	case *types.Pointer:
+		if a, ok := u.Elem().Underlying().(*types.Array); ok {
+			return a.Elem()
+		}
+	}
+	return nil
 }
 
 func (b *Bounds) eqFact(l, r *BTerm, src string) *BFact {
@@ -1039,7 +1094,7 @@ func (b *Bounds) assign(fs FactSet, lhs ast.Expr, rhs ast.Expr, at ast.Node) {
 		}
 	case *ast.IndexExpr:
 		if _, isMap := info.TypeOf(x.X).Underlying().(*types.Map); !isMap {
-			b.killElems(fs)
+			b.killElems(fs, elemTypeOf(info.TypeOf(x.X)))
 		}
 	case *ast.StarExpr:
 		// store through a pointer: forget all non-isolated field facts and elements
@@ -1063,14 +1118,19 @@ func (b *Bounds) callEffects(fs FactSet, call *ast.CallExpr) {
 		case "len", "cap", "make", "new", "min", "max", "panic", "print", "println", "real", "imag", "complex":
 			return
 		case "copy":
-			b.killElems(fs)
+			if len(call.Args) > 0 {
+				b.killElems(fs, elemTypeOf(info.TypeOf(call.Args[0])))
+			}
 			return
 		case "append", "delete", "clear", "close":
-			b.killElems(fs)
+			if len(call.Args) > 0 {
+				b.killElems(fs, elemTypeOf(info.TypeOf(call.Args[0])))
+			}
 			return
 		}
 	}
-	touchesElems := false
+	var touched []types.Type
+	touchesAll := false
 	consider := func(e ast.Expr) {
 		t := info.TypeOf(e)
 		if t == nil {
@@ -1085,8 +1145,10 @@ func (b *Bounds) callEffects(fs FactSet, call *ast.CallExpr) {
 					b.killIf(fs, func(t *BTerm) bool { return t.K == TField && !b.isolated(t) })
 				}
 			}
-		case *types.Slice, *types.Map:
-			touchesElems = true
+		case *types.Slice:
+			touched = append(touched, elemTypeOf(t))
+		case *types.Map, *types.Interface, *types.Struct, *types.Signature:
+			touchesAll = true
 		}
 	}
 	if sel, ok := ast.Unparen(call.Fun).(*ast.SelectorExpr); ok {
@@ -1110,8 +1172,11 @@ func (b *Bounds) callEffects(fs FactSet, call *ast.CallExpr) {
 		consider(a)
 	}
 	// a closure variable may write captured variables: those are untracked already
-	if touchesElems {
-		b.killElems(fs)
+	if touchesAll {
+		b.killElems(fs, nil)
+	}
+	for _, et := range touched {
+		b.killElems(fs, et)
 	}
 }
 
@@ -1708,7 +1773,9 @@ func (b *Bounds) nonNilAt(r *ast.ReturnStmt, id *ast.Ident) bool {
 
 // AnalyseBoundsWith is AnalyseBounds with callee summaries enabled.
 func AnalyseBoundsWith(p *Prog, f *Func, sums func(*Func) *Summary) *Bounds {
+	cacheMu.Lock()
 	if b, ok := boundsCache[f]; ok {
+		cacheMu.Unlock()
 		return b
 	}
 	b := &Bounds{P: p, F: f, G: p.Graph(f), info: f.Info(), sizes: f.Pkg.TypesSizes,
@@ -1716,6 +1783,7 @@ func AnalyseBoundsWith(p *Prog, f *Func, sums func(*Func) *Summary) *Bounds {
 		carry: map[*ast.ForStmt][]*BFact{}, before: map[ast.Node]FactSet{}, edgeT: map[*cfg.Block]FactSet{}, in: map[*cfg.Block]FactSet{},
 		summaries: sums}
 	boundsCache[f] = b
+	cacheMu.Unlock()
 	b.prepare()
 	b.flow()
 	b.obligations()
@@ -1724,6 +1792,8 @@ func AnalyseBoundsWith(p *Prog, f *Func, sums func(*Func) *Summary) *Bounds {
 
 // ResetBoundsCache drops cached analyses (a new program was loaded).
 func ResetBoundsCache() {
+	cacheMu.Lock()
+	defer cacheMu.Unlock()
 	boundsCache = map[*Func]*Bounds{}
 	summaryCache = map[*Func]*Summary{}
 }
